@@ -8,6 +8,8 @@
 //	pm      port-mapping histories on the strict fake  <-> gxdrv_netfilter (M6 generators), + monitors
 //	m6      random batches / single commands / ipset ops on the strict fakes <-> gxdrv_netfilter
 //	sk      OpenHostports / CloseHostports with real sockets <-> the bind-table model, + monitors
+//	srv     the real galaxy request path (ADD / DEL through Galaxy.VerifCNI, port file, GC pass) with a fault at every
+//	        iptables call index of the setup and of the cleanup <-> the server-level protocol model, + monitors
 //	kernel  (thorough, private netns only) M6 and the exec-backed handler <-> real iptables 1.8.9
 package main
 
@@ -24,7 +26,7 @@ import (
 
 const rule = "a case is non-trivial if it contains at least two successful state-changing operations " +
 	"(pm: setup/clean/sync on a prior table with foreign or stale chains; m6: commands that changed a table or a set; " +
-	"sk: opens that handed out a socket; kernel: batches the kernel accepted)"
+	"sk: opens that handed out a socket; srv: successful ADD/DEL requests; kernel: batches the kernel accepted)"
 
 type ctx struct {
 	e      *hx.Env
@@ -121,6 +123,8 @@ func (c *ctx) runOps(name string, ops []string) {
 		c.finish("m6", name, execM6(c, ops))
 	case "sk":
 		c.finish("sk", name, execSK(c, ops))
+	case "srv":
+		c.finish("srv", name, execSRV(c, ops))
 	case "kernel":
 		if c.netns != "private" || !nf.HaveRealIptables() {
 			c.r.Hit("kernel:skipped")
@@ -135,6 +139,7 @@ func (c *ctx) runOps(name string, ops []string) {
 func run(e *hx.Env) *hx.Report {
 	r := hx.NewReport("C14", e.Tier, e.Seed, rule)
 	c := &ctx{e: e, r: r, netns: os.Getenv("GXNF_NETNS")}
+	defer srvG.close()
 	if c.netns == "" {
 		c.netns = "host"
 	}
@@ -183,6 +188,13 @@ func run(e *hx.Env) *hx.Report {
 	}
 	for i := 0; want("sk") && i < e.N(80, 600); i++ {
 		c.runOps(fmt.Sprintf("sk%d", i), genSK(c, i))
+	}
+	for i := 0; want("srv") && i < e.N(96, 480); i++ {
+		ops := genSRV(c, i)
+		c.runOps(fmt.Sprintf("srv%d", i), ops)
+		if i < 2 {
+			r.Sample(map[string]interface{}{"kind": "srv", "ops": ops})
+		}
 	}
 	if e.Thorough() && want("kernel") {
 		if c.netns == "private" && nf.HaveRealIptables() {
